@@ -6,6 +6,7 @@ mod dom;
 mod field;
 mod pipeline;
 mod curves;
+mod oracle;
 
 fn main() {
     util::install_panic_hook();
@@ -26,6 +27,7 @@ fn main() {
         "field-real" => field::run_real(a(2), a(3)),
         "pipeline" => pipeline::run(a(2), a(3)),
         "curves" => curves::run(a(2), a(3)),
+        "produce" => oracle::run(a(2), a(3)),
         _ => {
             eprintln!("unknown command {cmd}");
             std::process::exit(2);
